@@ -59,7 +59,7 @@ def contract(prop):
             modifies=["idx", "chk", "next"], decreases="end - idx + 8")},
         ensures=[("checksum == chain of max(1, ceil(len/8)) crypt() segments, each salted by the previous segment's first two characters",
                   "result.encode('ascii') == chain(secret, self.salt.encode('ascii'), 1 if len(secret) <= 8 else (len(secret) + 7) // 8)")],
-        prop=prop, prefer="cvc5",
+        prop=prop, prefer="cvc5", replay=_big_replay(),
         descr="every password (bytes), every 2-character salt; DES core abstract",
     )
 
@@ -119,6 +119,43 @@ def bsdi_key_contract(prop):
                                               modifies=["idx", "key_value", "next", "tmp_value"], decreases="end - idx + 8")},
         ensures=[("key == fold over max(1, ceil(len/8)) blocks: K(block0), then E(k, k) xor K(block j) -- every 8-byte block of the password enters the key",
                   "result == fold(secret, 1 if len(secret) <= 8 else (len(secret) + 7) // 8)")],
-        prop=prop,
+        prop=prop, replay=_key_replay(),
         descr="every password (bytes); DES core and the per-block key abstract",
     )
+
+
+# ---- replay hooks: the postconditions as executable specifications over the REAL helper routines (the DES core stays the
+#      real one on both sides, exactly what the contract abstracts), searched on passwords around the block boundaries ----
+def _lens_search(values):
+    out = []
+    for n in (0, 1, 7, 8, 9, 10, 15, 16, 17, 23, 24, 25, 31, 33, 40, 41, 64, 65):
+        out.append(dict(values, secret="".join(chr(33 + (7 * k + n) % 90) for k in range(n))))
+    return out
+
+
+def _big_replay():
+    from pyvc.replay import py_replay
+    ref = """
+from passlib.handlers.des_crypt import bigcrypt, _raw_des_crypt
+def ref(secret, salt):
+    chk = _raw_des_crypt(secret[:8], salt.encode('ascii'))
+    for i in range(8, len(secret), 8):
+        chk += _raw_des_crypt(secret[i:i + 8], chk[-11:-9])
+    return chk.decode('ascii')
+"""
+    return py_replay(ref, "s = V['secret'].encode('latin-1'); r = (bigcrypt(salt='ab', use_defaults=True)._calc_checksum(s), ref(s, 'ab'))",
+                     "exc is None and r[0] == r[1]", {"secret": "password"}, search=_lens_search)
+
+
+def _key_replay():
+    from pyvc.replay import py_replay
+    ref = """
+from passlib.handlers.des_crypt import _bsdi_secret_to_key, _crypt_secret_to_key
+from passlib.crypto.des import des_encrypt_int_block
+def ref(secret):
+    key = _crypt_secret_to_key(secret[:8])
+    for i in range(8, len(secret), 8):
+        key = des_encrypt_int_block(key, key) ^ _crypt_secret_to_key(secret[i:i + 8])
+    return key
+"""
+    return py_replay(ref, "s = V['secret'].encode('latin-1'); r = (_bsdi_secret_to_key(s), ref(s))", "exc is None and r[0] == r[1]", {"secret": "password"}, search=_lens_search)
